@@ -39,6 +39,10 @@ pub enum COp {
     LazyInsertInitial(u8, u32),
     LazyInsertOwn(u8, u32),
     LazyCreate(u32),
+    /// join over the entities, then is_alive of every delivered handle
+    JoinProbe,
+    /// request deletion of a handle delivered by a join (counted from the end)
+    DeleteJoined(u8),
 }
 
 #[derive(Clone, Debug, Serialize, Deserialize, Hash, PartialEq, Eq)]
@@ -182,6 +186,7 @@ struct ThreadLog {
     not_alive_after_create: Vec<Entity>,
     deletes: Vec<(Entity, bool)>,
     alive_probes: Vec<(Entity, bool)>,
+    joined_probes: Vec<(Entity, bool)>,
     joins: Vec<Vec<Entity>>,
     lazy_execs: Vec<u32>,
     lazy_inserts: Vec<(Entity, u32)>,
@@ -267,6 +272,21 @@ pub fn run_once(case: &ConcCase, choices: &[u8]) -> Result<Outcome, Violation> {
                                 COp::Join => {
                                     log.joins.push((&*ents).join().collect());
                                 }
+                                COp::JoinProbe => {
+                                    let j: Vec<Entity> = (&*ents).join().collect();
+                                    for e in &j {
+                                        log.joined_probes.push((*e, ents.is_alive(*e)));
+                                    }
+                                    log.joins.push(j);
+                                }
+                                COp::DeleteJoined(i) => {
+                                    let j: Vec<Entity> = (&*ents).join().collect();
+                                    if !j.is_empty() {
+                                        let e = j[j.len() - 1 - (*i as usize % j.len())];
+                                        log.deletes.push((e, ents.delete(e).is_ok()));
+                                    }
+                                    log.joins.push(j);
+                                }
                                 COp::LazyExec => {
                                     let id = (tid * 100 + k) as u32;
                                     let l = exec_log.clone();
@@ -341,6 +361,9 @@ pub fn run_once(case: &ConcCase, choices: &[u8]) -> Result<Outcome, Violation> {
         for (e, a) in &l.alive_probes {
             ensure!("C10", "initial-not-alive", *a, "thread {}: initial entity {:?} reported dead before maintain ({})", tid, e, sched_desc());
         }
+        for (e, a) in &l.joined_probes {
+            ensure!("C10", "joined-not-alive", *a, "thread {}: {:?} was delivered by (&entities).join() but is_alive reported it dead before maintain ({})", tid, e, sched_desc());
+        }
         for j in &l.joins {
             let set: HashSet<Entity> = j.iter().cloned().collect();
             ensure!("C10", "join-duplicates", set.len() == j.len(), "thread {}: (&entities).join() yielded a duplicate: {:?} ({})", tid, j, sched_desc());
@@ -407,6 +430,8 @@ fn cop() -> impl Strategy<Value = COp> {
         2 => any::<u8>().prop_map(COp::DeleteOwn),
         1 => any::<u8>().prop_map(COp::IsAliveInitial),
         1 => Just(COp::Join),
+        1 => Just(COp::JoinProbe),
+        1 => any::<u8>().prop_map(COp::DeleteJoined),
         2 => Just(COp::LazyExec),
         1 => (any::<u8>(), 1u32..100).prop_map(|(a, b)| COp::LazyInsertInitial(a, b)),
         1 => (any::<u8>(), 1u32..100).prop_map(|(a, b)| COp::LazyInsertOwn(a, b)),
@@ -437,7 +462,7 @@ fn label(stats: &mut Stats, case: &ConcCase, o: &Outcome) {
 }
 
 fn c10_random(ctx: &ShardCtx) -> ShardResult {
-    let cases = ctx.tier.pick(5000, 15_000);
+    let cases = ctx.tier.pick(5000, 100_000);
     run_proptest(ctx, conc_case(), cases, 10, |c, stats| {
         let o = run_once(c, &c.choices)?;
         label(stats, c, &o);
@@ -461,6 +486,8 @@ fn catalogue() -> Vec<ConcCase> {
             vec![vec![LazyCreate(5)], vec![Create, LazyInsertOwn(0, 7)]],
             vec![vec![CreateIter(1)], vec![Create], vec![LazyExec, DeleteInitial(1)]],
             vec![vec![DeleteInitial(0)], vec![DeleteInitial(0), IsAliveInitial(0)], vec![Create]],
+            vec![vec![Create], vec![JoinProbe]],
+            vec![vec![Create], vec![DeleteJoined(0)], vec![LazyCreate(3)]],
         ];
         for p in progs {
             v.push(ConcCase { init: 2, free, threads: p, choices: vec![] });
@@ -563,9 +590,12 @@ fn c10_stress(ctx: &ShardCtx) -> ShardResult {
         let extra: Vec<Entity> = world.create_iter().take(50).collect();
         world.delete_entities(&extra).unwrap();
         world.maintain();
+        let burst = ctx.tier.pick(4000usize, 20000usize);
+        let barrier = std::sync::Barrier::new(nthreads);
         let results: Vec<(Vec<Entity>, Vec<Entity>, u32, bool)> = {
             let world = &world;
             let initial = &initial;
+            let barrier = &barrier;
             std::thread::scope(|s| {
                 let hs: Vec<_> = (0..nthreads)
                     .map(|t| {
@@ -577,6 +607,12 @@ fn c10_stress(ctx: &ShardCtx) -> ShardResult {
                             let mut execs = 0u32;
                             let mut ok = true;
                             for k in 0..per {
+                                if k % 16 == 5 {
+                                    // whatever the entity join delivers is alive and can be deleted
+                                    for e in (&*ents).join() {
+                                        ok &= ents.is_alive(e);
+                                    }
+                                }
                                 match (k + t) % 5 {
                                     0 | 1 | 2 => {
                                         let e = ents.create();
@@ -602,6 +638,26 @@ fn c10_stress(ctx: &ShardCtx) -> ShardResult {
                                         execs += 1;
                                     }
                                 }
+                            }
+                            // contended burst on the lazy queue through all entry points
+                            barrier.wait();
+                            for k in 0..burst {
+                                match k % 4 {
+                                    0 => lazy.exec(|w| {
+                                        *w.write_resource::<u64>() += 1;
+                                    }),
+                                    1 => lazy.exec_mut(|w| {
+                                        *w.write_resource::<u64>() += 1;
+                                    }),
+                                    2 => lazy.exec(|w| {
+                                        *w.write_resource::<u64>() += 1;
+                                    }),
+                                    _ => {
+                                        lazy.insert(initial[0], CV(1));
+                                        continue;
+                                    }
+                                }
+                                execs += 1;
                             }
                             (created, deleted, execs, ok)
                         })
@@ -662,7 +718,7 @@ pub fn c10() -> Property {
                 shards: |t: Tier| t.pick(8, 16),
                 run: c10_exhaustive,
                 replay: c10_replay,
-                rule: "24 small programs (2-3 threads x 1-2 operations from create / create_iter / delete / is_alive / join / lazy exec / lazy insert / lazy builder, on worlds with 0, 1 or 2 indices on the free list): ALL sequentially consistent schedules with at most 2 (quick) / 3 (thorough) preemptions at the yield points inside allocate_atomic, kill_atomic, the two CAS loops, pop_atomic and LazyUpdate::exec are enumerated by re-execution under the owned baton scheduler (cap per program: 4000 / 400000); every program counts as one non-trivial case, evaluations = schedules executed",
+                rule: "30 small programs (2-3 threads x 1-2 operations from create / create_iter / delete / is_alive / join / is_alive and delete of joined handles / lazy exec / lazy insert / lazy builder, on worlds with 0, 1 or 2 indices on the free list): ALL sequentially consistent schedules with at most 2 (quick) / 3 (thorough) preemptions at the yield points inside allocate_atomic, kill_atomic, the two CAS loops, pop_atomic and LazyUpdate::exec are enumerated by re-execution under the owned baton scheduler (cap per program: 4000 / 400000); every program counts as one non-trivial case, evaluations = schedules executed",
                 exe_env: None,
             },
             SubCheck {
@@ -678,7 +734,7 @@ pub fn c10() -> Property {
                 shards: |t: Tier| t.pick(2, 8),
                 run: c10_stress,
                 replay: stress_replay,
-                rule: "un-scheduled stress on 2..16 real threads (x86-TSO only samples weak-memory behaviour): same end-state oracle; every round is one case",
+                rule: "un-scheduled stress on 2..16 real threads (x86-TSO only samples weak-memory behaviour): mixed create / delete / join+is_alive / lazy exec, then a barrier-started burst of 4000 (quick) / 20000 (thorough) pushes per thread through exec, exec_mut and insert; same end-state oracle; every round is one case",
                 exe_env: None,
             },
         ],
